@@ -25,10 +25,10 @@ import (
 // by the generic invariants, the start of nested roots by CompareTree.
 type Behaviour struct {
 	// SeekAbs/SeekRel to a position behind the end of the buffer fails
-	// (unchanged fq: succeeds, the next read fails).
+	// (before fq commit 205b5ad2: succeeded, the next read failed).
 	SeekPastEndFails bool
 	// FieldStruct/ArrayRootBitBufFn post-process the nested root also when
-	// the callback fails (unchanged fq: only when it returns).
+	// the callback fails (before fq commit 7e565ad1: only when it returned).
 	NestedRootProcessedOnFailure bool
 	// the start of a nested buffer root attached by a nested format is
 	// rebased to the parent buffer like every other value (unchanged fq: it
